@@ -194,6 +194,7 @@ func runCL(c *Ctx, s *Sink) {
 		return
 	}
 	info := p.TypesInfo
+	defs := collectDefs(info, fd)
 	ok, found := false, false
 	ast.Inspect(fd.Body, func(n ast.Node) bool {
 		blk, isB := n.(*ast.BlockStmt)
@@ -204,6 +205,26 @@ func runCL(c *Ctx, s *Sink) {
 		for i, st := range blk.List {
 			ast.Inspect(st, func(m ast.Node) bool {
 				if call, isC := m.(*ast.CallExpr); isC {
+					// a helper that receives the classifier and codes the batch (extracted coding loop)
+					if body, cinfo, bind := c.calleeSource(info, defs, call); body != nil {
+						for po, arg := range bind {
+							if tv, has := info.Types[arg]; has && strings.HasSuffix(sinkTypeName(tv.Type), "/pkg/obiseq.BioSequenceClassifier") {
+								ast.Inspect(body, func(k ast.Node) bool {
+									if c2, ok := k.(*ast.CallExpr); ok {
+										if s2, ok := c2.Fun.(*ast.SelectorExpr); ok && rootObj(cinfo, s2.X) == po {
+											if s2.Sel.Name == "Reset" && resetIdx < 0 {
+												resetIdx = i
+											}
+											if s2.Sel.Name == "Code" && codeIdx < 0 {
+												codeIdx = i
+											}
+										}
+									}
+									return true
+								})
+							}
+						}
+					}
 					if sel, isS := call.Fun.(*ast.SelectorExpr); isS {
 						if tv, has := info.Types[sel.X]; has && strings.HasSuffix(sinkTypeName(tv.Type), "/pkg/obiseq.BioSequenceClassifier") {
 							if sel.Sel.Name == "Reset" && resetIdx < 0 {
